@@ -7,7 +7,10 @@ package main
 //   * which []byte buffers are allocated with make() *before* the loop (they are reused by every iteration);
 //   * for every `go f(args…)` inside the loop: is some argument a slice of (or the same slice as) such a
 //     buffer — directly, or through a variable assigned from one inside the loop?  A variable assigned from
-//     make() inside the loop is the goroutine's own.
+//     make() inside the loop is the goroutine's own.  For `go func() { … }()` the same question is asked of
+//     every identifier the literal's body mentions (what it captures): a loop buffer mentioned there — also as
+//     the source of a copy() taken inside the goroutine — is read when the goroutine runs, i.e. shared.
+//     (Where the private copy is taken is the fact `copyPlace` of ServerFacts2.)
 //   * a call inside the loop that receives the buffer and returns a value which is then passed on
 //     (llmnr.DecodeMessage) is accepted only if the callee demonstrably does not retain its argument: every
 //     use of the parameter in its body is len(p), p[i], string(p[a:b]), binary.BigEndian.UintN(p[a:]),
@@ -338,6 +341,17 @@ func serverFacts(repo string) (string, any, error) {
 								sp.Callee = f.Sel.Name
 							case *ast.Ident:
 								sp.Callee = f.Name
+							case *ast.FuncLit:
+								// `go func() { … }()`: the goroutine sees every variable its body mentions.  A loop buffer
+								// (or a window of it) mentioned there is read when the goroutine runs, not when the datagram
+								// arrived — also when the mention is the source of a copy() taken inside the goroutine.
+								sp.Callee = "func literal"
+								ast.Inspect(f.Body, func(m ast.Node) bool {
+									if id, ok := m.(*ast.Ident); ok && tainted[id.Name] {
+										sp.SharesLoopBuffer = true
+									}
+									return true
+								})
 							default:
 								ferr = fmt.Errorf("%s: go statement with an unknown callee shape", fset.Position(s.Pos()))
 								return false
